@@ -27,7 +27,7 @@ EXPLANATION = (
 NOT_DECIDED = ["that unit k holds the text of page k", "heading-section units of docx/doc/odt (text partition is value level)", "mbox message boundaries (regex semantics)",
                "legacy PPT slide lists: text-less slides are dropped when any slide has text (open known finding)"]
 TRUSTED = ["pypdf reader.pages, openpyxl sheetnames, xlrd sheets(), ElementTree findall enumerate the source units in order", "CFG path enumeration"]
-FLOORS = {"C03-FILT": 2, "C03-JOIN": 11, "C03-NUM": 25, "C03-FILL": 7, "C03-COVER": 6}
+FLOORS = {"C03-FILT": 2, "C03-JOIN": 11, "C03-NUM": 25, "C03-FILL": 8, "C03-COVER": 6}
 
 JOIN_CLASSES = ["PdfContent", "PptxContent", "OdpContent", "XlsxContent", "OdsContent", "EpubContent", "HtmlContent", "PlainTextContent", "EmailContent", "OdgContent", "OdfContent"]
 # content class -> (collection, how the number is obtained in iterate_units: 'enumerate' | '<field on element>')
@@ -245,6 +245,8 @@ FILL_SITES = [
     (X + "ms_legacy/xls_extractor.py", "_read_content", ("ret",)),
     (X + "open_office/ods_extractor.py", "read_ods", ("kw", "sheets")),
     (X + "ms_legacy/ppt_extractor.py", "_build_slides_from_text_blocks", ("expr", "content.slides")),
+    # one result per mailbox message: the generator loop yields exactly once per split message
+    (X + "mail/mbox_email_extractor.py", "read_mbox_format_mail", ("yield", "_split_mbox_messages")),
 ]
 
 
@@ -277,6 +279,18 @@ def rule_fill(ctx: Ctx) -> RuleReport:
     for rel, fn, role in FILL_SITES:
         f = ctx.p.func(rel, fn)
         rep.unit(f.key)
+        if role[0] == "yield":
+            src = {n.targets[0].id for n in walk_own(f.node) if isinstance(n, ast.Assign) and len(n.targets) == 1 and isinstance(n.targets[0], ast.Name)
+                   and isinstance(n.value, ast.Call) and (dotted(n.value.func) or "").split(".")[-1] == role[1]}
+            loops = [l for l in walk_own(f.node) if isinstance(l, ast.For) and ((isinstance(l.iter, ast.Name) and l.iter.id in src) or (isinstance(l.iter, ast.Call) and (dotted(l.iter.func) or "").split(".")[-1] == role[1]))]
+            if len(loops) != 1:
+                raise AnalysisError(f"C03-FILL: the loop over {role[1]}(...) in {f.key} was not found")
+            loop = loops[0]
+            apps = [y for y in ast.walk(loop) if isinstance(y, ast.Yield)]
+            if not apps:
+                raise AnalysisError(f"C03-FILL: no yield in the message loop of {f.key}")
+            _fill_paths(ctx, rep, rel, fn, f, loop, apps, "the result generator", _filtered_source(ctx, f, loop))
+            continue
         names = _role_var(f, role)
         if len(names) != 1:
             raise AnalysisError(f"C03-FILL: cannot identify the unit collection ({role}) in {f.key}: candidates {sorted(names)}")
@@ -289,32 +303,87 @@ def rule_fill(ctx: Ctx) -> RuleReport:
             raise AnalysisError(f"C03-FILL: `{var}.append` of {f.key} is not inside a loop")
         # innermost loop that contains all appends
         loop = sorted(loops, key=lambda l: -l.lineno)[0]
-        cfg = CFG(f.node, _may_raise_wide)
-        la = LoopAnalysis(f.node, cfg, loop)
-        paths, capped = la.paths()
-        if capped:
-            rep.obligations += 1
-            rep.residual.append(f"{f.key}: fill loop has more than 4096 paths; not judged")
-            continue
-        bad = None
-        for p in paths:
-            n = 0
-            for nid, lab in p:
-                nd = cfg.nodes[nid]
-                if lab in ("exc", "inner") or nd.kind != "stmt":
-                    continue
-                for x in ast.walk(nd.ast):
-                    if any(x is a for a in apps):
-                        n += 1
-            if n != 1:
-                bad = (p, n)
-                break
-        if bad is None:
-            rep.ok({"fill_loop": f"{fn}: for ... in {short(loop.iter, 40) if isinstance(loop, ast.For) else '?'}", "paths": len(paths), "appends_per_source_element": 1})
-        else:
-            p, n = bad
-            rep.fail(Finding("C03-FILL", rel, fn, f"loop `{short(loop, 60)}`", f"a path through one iteration of the loop that fills `{var}` appends {n} element(s) instead of exactly one: units are numbered by position, so every later unit gets the wrong number ({' -> '.join(cfg.describe_path([x for x, _ in p])[:12])})", line=loop.lineno, path=cfg.describe_path([x for x, _ in p])))
+        _fill_paths(ctx, rep, rel, fn, f, loop, apps, f"`{var}`", _filtered_source(ctx, f, loop))
     return rep
+
+
+def _filtered_source(ctx, f, loop):
+    """The expression that selects a subset of the source sequence before the fill loop sees it (comprehension `if`, filter()), or None."""
+    if not isinstance(loop, ast.For):
+        return None
+
+    def filt(e):
+        if isinstance(e, ast.Call) and isinstance(e.func, ast.Name) and e.func.id in ("list", "tuple", "sorted", "enumerate", "iter", "reversed") and e.args:
+            return filt(e.args[0])
+        if isinstance(e, (ast.ListComp, ast.GeneratorExp, ast.SetComp)) and any(g.ifs for g in e.generators):
+            return e
+        if isinstance(e, ast.Call) and isinstance(e.func, ast.Name) and e.func.id == "filter":
+            return e
+        return None
+
+    it = loop.iter
+    if isinstance(it, ast.Call) and isinstance(it.func, ast.Name) and it.func.id == "enumerate" and it.args:
+        it = it.args[0]
+    r = filt(it)
+    if r is not None:
+        return r
+    if isinstance(it, ast.Name):
+        params = [a.arg for a in f.node.args.args]
+        for n in walk_own(f.node):
+            if isinstance(n, ast.Assign) and any(isinstance(t, ast.Name) and t.id == it.id for t in n.targets):
+                r = filt(n.value)
+                if r is not None:
+                    return r
+        if it.id in params:
+            idx = params.index(it.id)
+            for g in ctx.p.all_functions():
+                if g.module is not f.module:
+                    continue
+                for c in calls_in(g):
+                    if any(h is f for h in resolve_call(ctx.p, g, c).funcs):
+                        a = c.args[idx] if idx < len(c.args) else next((k.value for k in c.keywords if k.arg == it.id), None)
+                        if a is None:
+                            continue
+                        r = filt(a)
+                        if r is None and isinstance(a, ast.Name):
+                            for n in walk_own(g.node):
+                                if isinstance(n, ast.Assign) and any(isinstance(t, ast.Name) and t.id == a.id for t in n.targets):
+                                    r = r or filt(n.value)
+                        if r is not None:
+                            return r
+    return None
+
+
+def _fill_paths(ctx, rep, rel, fn, f, loop, apps, what, filtered):
+    if filtered is not None:
+        rep.fail(Finding("C03-FILL", rel, fn, "source filtered: " + short(filtered, 80),
+                         f"the sequence of source units is filtered (`{short(filtered, 60)}`) before the loop that fills {what}: units are numbered by position, so a dropped unit shifts the numbers of all later ones and its content is in no unit", line=filtered.lineno))
+        return
+    cfg = CFG(f.node, _may_raise_wide)
+    la = LoopAnalysis(f.node, cfg, loop)
+    paths, capped = la.paths()
+    if capped:
+        rep.obligations += 1
+        rep.residual.append(f"{f.key}: fill loop has more than 4096 paths; not judged")
+        return
+    bad = None
+    for p in paths:
+        n = 0
+        for nid, lab in p:
+            nd = cfg.nodes[nid]
+            if lab in ("exc", "inner") or nd.kind != "stmt":
+                continue
+            for x in ast.walk(nd.ast):
+                if any(x is a for a in apps):
+                    n += 1
+        if n != 1:
+            bad = (p, n)
+            break
+    if bad is None:
+        rep.ok({"fill_loop": f"{fn}: for ... in {short(loop.iter, 40) if isinstance(loop, ast.For) else '?'}", "paths": len(paths), "elements_per_source_unit": 1})
+    else:
+        p, n = bad
+        rep.fail(Finding("C03-FILL", rel, fn, f"loop `{short(loop, 60)}`", f"a path through one iteration of the loop that fills {what} produces {n} element(s) instead of exactly one: units are numbered by position, so every later unit gets the wrong number ({' -> '.join(cfg.describe_path([x for x, _ in p])[:12])})", line=loop.lineno, path=cfg.describe_path([x for x, _ in p])))
 
 
 def _may_raise_wide(stmt) -> bool:
